@@ -344,7 +344,17 @@ class InfixExpression(FilterExpression):
     def __str__(self) -> str:
         if self.logical:
             return f"({self.left} {self.operator} {self.right})"
-        return f"{self.left} {self.operator} {self.right}"
+        return (
+            f"{self._operand(self.left)} {self.operator} {self._operand(self.right)}"
+        )
+
+    @staticmethod
+    def _operand(expr: FilterExpression) -> str:
+        # A comparison used as the operand of another comparison keeps its
+        # parentheses, `(@.a == 1) == true` is not `@.a == (1 == true)`.
+        if isinstance(expr, InfixExpression) and not expr.logical:
+            return f"({expr})"
+        return str(expr)
 
     def __eq__(self, other: object) -> bool:
         return (
